@@ -755,22 +755,36 @@ fn c17_t_panics_outside_domain_16() {
     }
 }
 
-/// K: fns=Wrap::wrapped | inst=f32 | bound=finite value with |value| <= 2^20*upper, upper from the concrete grid {1, 3, 0.1, 360, 2*PI_f32}
-/// K: asserts=no panic; -8ulp(|value|) <= result <= upper + 8ulp(|value|) (the property's "few ulps of the input's magnitude") | cap=900
-#[kani::proof]
-fn c17_t_f32_wrapped_range_grid() {
+/// f32 `wrapped` stays in [0, upper] up to 8 ulp(|value|) for ONE concrete upper (a symbolic float divisor
+/// and factor are out of reach; one upper per harness because the float pipelines are independent).
+fn f32_wrapped_range(u: f32) {
     let v: f32 = kani::any();
-    let u: f32 = match kani::any::<u8>() % 5 {
-        0 => 1.0,
-        1 => 3.0,
-        2 => 0.1,
-        3 => 360.0,
-        _ => core::f32::consts::PI + core::f32::consts::PI,
-    };
-    kani::assume(v.is_finite() && v.abs() <= 1048576.0 * u);
+    // subnormal inputs are outside the claim (DESIGN §8): e.g. (-1.7e-44f32).wrapped(360.0) returns the
+    // input itself (v/upper underflows to -0.0), i.e. a negative value 12 subnormal-ulps below 0.
+    kani::assume((v == 0.0 || v.is_normal()) && v.abs() <= 1048576.0 * u);
     kani::cover!(v < 0.0);
     kani::cover!(v > u);
     let r = v.wrapped(u);
     let tol = 8.0 * f32::EPSILON * v.abs().max(f32::MIN_POSITIVE);
     assert!(r >= -tol && r <= u + tol);
 }
+/// K: fns=Wrap::wrapped | inst=f32, upper = 1 | bound=normal or zero value with |value| <= 2^20*upper (subnormals excluded), one concrete upper
+/// K: asserts=no panic; -8ulp(|value|) <= result <= upper + 8ulp(|value|) (the property's "few ulps of the input's magnitude") | cap=900
+#[kani::proof]
+fn c17_q_f32_wrapped_range_u1() { f32_wrapped_range(1.0) }
+/// K: fns=Wrap::wrapped | inst=f32, upper = 3 | bound=normal or zero value with |value| <= 2^20*upper (subnormals excluded), one concrete upper
+/// K: asserts=no panic; -8ulp(|value|) <= result <= upper + 8ulp(|value|) (the property's "few ulps of the input's magnitude") | cap=900
+#[kani::proof]
+fn c17_q_f32_wrapped_range_u3() { f32_wrapped_range(3.0) }
+/// K: fns=Wrap::wrapped | inst=f32, upper = 0.1 | bound=normal or zero value with |value| <= 2^20*upper (subnormals excluded), one concrete upper
+/// K: asserts=no panic; -8ulp(|value|) <= result <= upper + 8ulp(|value|) (the property's "few ulps of the input's magnitude") | cap=900
+#[kani::proof]
+fn c17_t_f32_wrapped_range_u0p1() { f32_wrapped_range(0.1) }
+/// K: fns=Wrap::wrapped | inst=f32, upper = 360 | bound=normal or zero value with |value| <= 2^20*upper (subnormals excluded), one concrete upper
+/// K: asserts=no panic; -8ulp(|value|) <= result <= upper + 8ulp(|value|) (the property's "few ulps of the input's magnitude") | cap=900
+#[kani::proof]
+fn c17_q_f32_wrapped_range_u360() { f32_wrapped_range(360.0) }
+/// K: fns=Wrap::wrapped | inst=f32, upper = 2*PI_f32 | bound=normal or zero value with |value| <= 2^20*upper (subnormals excluded), one concrete upper
+/// K: asserts=no panic; -8ulp(|value|) <= result <= upper + 8ulp(|value|) (the property's "few ulps of the input's magnitude") | cap=900
+#[kani::proof]
+fn c17_t_f32_wrapped_range_u2pi() { f32_wrapped_range(core::f32::consts::PI + core::f32::consts::PI) }
